@@ -10,6 +10,7 @@ package centrifuge
 // are the driver-supplied interfaces only.
 
 import (
+	"math"
 	"bytes"
 	"context"
 	"encoding/json"
@@ -184,6 +185,9 @@ type c04Eng struct {
 	connSubs  map[string]SubscribeOptions // connect-time server-side subscriptions (ConnectReply.Subscriptions)
 	trackCbs  []TrackCallback             // pending (unanswered) OnTrack authorisations
 	useMap    bool
+	mapPres   bool
+	noSnap    bool
+	deltaPos  bool // client subscriptions are positioned with fossil delta allowed (driver-only cases)
 	closeGid  int64 // goroutine of a close() the driver did not start itself, seen at Transport.Close
 	subOpts   map[string]c04Opts
 	stuck     string
@@ -331,8 +335,14 @@ func (p *c04Pres) AddPresence(ch string, uid string, info *ClientInfo) error {
 }
 
 func (p *c04Pres) RemovePresence(ch string, uid string, user string) error {
-	p.e.gate(c04GkPresRem, ch)
-	return p.MemoryPresenceManager.RemovePresence(ch, uid, user)
+	// fault: released with b = false the call takes effect in the backend but reports an error (a reply lost
+	// after the command ran); the model's RemovePresence always takes effect, so schedules stay comparable
+	ok := p.e.gate(c04GkPresRem, ch)
+	err := p.MemoryPresenceManager.RemovePresence(ch, uid, user)
+	if !ok {
+		return c04ErrBoom
+	}
+	return err
 }
 
 type c04Transport struct {
@@ -341,15 +351,29 @@ type c04Transport struct {
 	closed bool
 	pubs   map[string]int
 	cancel func()
+	accept string
+	hold   chan struct{}
 }
 
 func (t *c04Transport) Name() string                     { return "c04" }
-func (t *c04Transport) AcceptProtocol() string           { return "" }
+func (t *c04Transport) AcceptProtocol() string           { return t.accept }
 func (t *c04Transport) Protocol() ProtocolType           { return ProtocolTypeJSON }
 func (t *c04Transport) ProtocolVersion() ProtocolVersion { return ProtocolVersion2 }
 func (t *c04Transport) Unidirectional() bool             { return false }
 func (t *c04Transport) Emulation() bool                  { return false }
-func (t *c04Transport) DisabledPushFlags() uint64        { return PushFlagDisconnect }
+// DisabledPushFlags is called by the publication delivery between the position update and the enqueue (outside
+// c.mu): when armed by the driver (holdPush) the calling goroutine waits here - a natural gate for positioned
+// subscriptions (driver-only cases).
+func (t *c04Transport) DisabledPushFlags() uint64 {
+	t.mu.Lock()
+	h := t.hold
+	t.hold = nil
+	t.mu.Unlock()
+	if h != nil {
+		<-h
+	}
+	return PushFlagDisconnect
+}
 func (t *c04Transport) PingPongConfig() PingPongConfig {
 	return PingPongConfig{PingInterval: time.Hour, PongTimeout: time.Minute}
 }
@@ -434,6 +458,10 @@ type c04EngCfg struct {
 	Map      bool // map broker + published keys (map-subscribe templates)
 	TickConc int  // clientPresenceUpdateConcurrency (> 1: the concurrent variant of the presence tick)
 	Keyed    bool // shared-poll (keyed) channels: every channel of the engine is a shared poll channel
+	MapPres  bool // client subscriptions additionally get MapClientPresenceChannel = <channel>:clients
+	// AcceptProto: Metrics.ExposeTransportAcceptProtocol on and the connection's transport reports accept
+	// protocol "h1": the connection gauge is then kept per accept-protocol label
+	AcceptProto bool
 }
 
 func c04NewEng(armed []c04Gk, nch int, withMap ...bool) (*c04Eng, error) {
@@ -446,9 +474,11 @@ func c04NewEngCfg(armed []c04Gk, nch int, ec c04EngCfg) (*c04Eng, error) {
 		e.armed[k] = true
 	}
 	cfg := Config{LogLevel: LogLevelNone, ClientStaleCloseDelay: time.Hour}
-	useMap := ec.Map
-	e.useMap = useMap
+	useMap := ec.Map || ec.MapPres
+	e.useMap = ec.Map
+	e.mapPres = ec.MapPres
 	cfg.clientPresenceUpdateConcurrency = ec.TickConc
+	cfg.Metrics.ExposeTransportAcceptProtocol = ec.AcceptProto
 	if ec.Keyed {
 		cfg.SharedPoll = SharedPollConfig{GetSharedPollChannelOptions: func(string) (SharedPollChannelOptions, bool) {
 			return SharedPollChannelOptions{RefreshInterval: 100 * time.Millisecond, RefreshBatchSize: 100, MaxKeysPerConnection: 100}, true
@@ -558,6 +588,9 @@ func c04NewEngCfg(armed []c04Gk, nch int, ec c04EngCfg) (*c04Eng, error) {
 		return c, err
 	}
 	e.tr = &c04Transport{e: e}
+	if ec.AcceptProto {
+		e.tr.accept = "h1"
+	}
 	if e.client, err = mk("u1", e.tr); err != nil {
 		return nil, err
 	}
@@ -611,7 +644,15 @@ func (e *c04Eng) onSubscribe(ev SubscribeEvent, cb SubscribeCallback) {
 	}
 	if e.bypass || !e.armed[c04GkSubH] {
 		e.mu.Unlock()
-		cb(SubscribeReply{Options: SubscribeOptions{Type: ev.Type, EmitPresence: o.Pres, EmitJoinLeave: o.JL}}, nil)
+		so := SubscribeOptions{Type: ev.Type, EmitPresence: o.Pres, EmitJoinLeave: o.JL}
+		if e.mapPres {
+			so.MapClientPresenceChannel = ev.Channel + ":clients"
+		}
+		if e.deltaPos {
+			so.EnablePositioning = true
+			so.AllowedDeltaTypes = []DeltaType{DeltaTypeFossil}
+		}
+		cb(SubscribeReply{Options: so}, nil)
 		return
 	}
 	if th != nil {
@@ -840,6 +881,9 @@ func (e *c04Eng) addCmd(coq string, js string) {
 
 // snapshot records, at the quiescent point after a command, what C26 talks about.
 func (e *c04Eng) snapshot() {
+	if e.noSnap {
+		return // driver-only cases may sit inside hub locks between commands
+	}
 	row := make([]c04Snap, 0, len(e.chs))
 	for _, ch := range e.chs {
 		sn := c04Snap{N: e.node.hub.NumSubscribers(ch), IsSub: e.client.IsSubscribed(ch)}
@@ -967,9 +1011,14 @@ func (e *c04Eng) spawn(o c04Op) *c04Thread {
 			e.mu.Lock()
 			e.subOpts[ch] = o.Opts
 			e.mu.Unlock()
-			_ = c.handleSubscribe(&protocol.SubscribeRequest{Channel: ch}, &protocol.Command{Id: 7}, time.Now(),
-				&replyWriter{write: func(*protocol.Reply) {}})
+			req := &protocol.SubscribeRequest{Channel: ch}
+			if e.deltaPos {
+				req.Delta = string(DeltaTypeFossil)
+			}
+			_ = c.handleSubscribe(req, &protocol.Command{Id: 7}, time.Now(), &replyWriter{write: func(*protocol.Reply) {}})
 		}
+	case "publish": // a history publication whose delivery to the connection waits in the transport (holdPush)
+		f = func() { _, _ = e.node.Publish(ch, []byte(`{"n":1}`), WithHistory(10, time.Minute)) }
 	case "subkeyed": // shared-poll subscription (outside the model)
 		f = func() {
 			_ = c.handleSubscribe(&protocol.SubscribeRequest{Channel: ch, Type: int32(SubscriptionTypeSharedPoll)}, &protocol.Command{Id: 7}, time.Now(),
@@ -1071,6 +1120,20 @@ func (e *c04Eng) mapGoLive(th *c04Thread, ch string) {
 	_ = e.client.handleSubscribe(&protocol.SubscribeRequest{Channel: ch, Type: int32(SubscriptionTypeMap), Phase: MapPhaseState,
 		Limit: 100, Cursor: first.Cursor, Offset: first.Offset, Epoch: first.Epoch},
 		&protocol.Command{Id: 9}, time.Now(), e.mapReplyWriter(th))
+}
+
+// holdPush makes the next DisabledPushFlags call of the connection's transport wait; the returned function
+// lets it go on.
+func (e *c04Eng) holdPush() func() {
+	h := make(chan struct{})
+	e.tr.mu.Lock()
+	e.tr.hold = h
+	e.tr.mu.Unlock()
+	return func() {
+		e.addCmd("CNoModel", "release push")
+		close(h)
+		e.quiesce()
+	}
 }
 
 // answerTrack answers the oldest pending OnTrack authorisation (in a thread of its own).
@@ -1342,6 +1405,8 @@ type c04Snap struct {
 	IsSub bool `json:"s"`
 }
 
+// c04GaugeSum: the gauge as the driver observes it = the sum over its label sets of |value|: every series has
+// to return to its prior value (0) on its own, a +1 on one label set is not offset by a -1 on another.
 func c04GaugeSum(g *prometheus.GaugeVec) int64 {
 	chm := make(chan prometheus.Metric, 64)
 	go func() { g.Collect(chm); close(chm) }()
@@ -1349,7 +1414,7 @@ func c04GaugeSum(g *prometheus.GaugeVec) int64 {
 	for m := range chm {
 		var d dto.Metric
 		if m.Write(&d) == nil && d.Gauge != nil {
-			sum += d.Gauge.GetValue()
+			sum += math.Abs(d.Gauge.GetValue())
 		}
 	}
 	return int64(sum)
@@ -1548,6 +1613,9 @@ type c04Plan struct {
 	NCh    int
 	Map    bool // node with a map broker and two published keys per channel (map-subscribe templates)
 	Keyed  bool // shared-poll channels (keyed tracking templates)
+	MapPres bool // client subscriptions combine EmitPresence with a map client-presence channel
+	AcceptProto bool // set by c04RunPlan for every other seed: per-accept-protocol connection gauge
+	DeltaPos    bool // positioned client subscriptions with fossil delta (driver-only cases)
 	// NoModel: the schedule uses routes outside the Coq model (connect-time subscriptions, keyed tracking):
 	// the case is marked CNoModel and judged by the oracle on the observed end state only
 	NoModel  bool
@@ -1579,6 +1647,7 @@ func c04Finish(e *c04Eng, drain bool) {
 }
 
 func c04RunPlan(p c04Plan, seed int64) (res c04Result) {
+	p.AcceptProto = seed&1 == 1
 	for try := 0; ; try++ {
 		var unsafe bool
 		res, unsafe = c04RunPlanOnce(p, rand.New(rand.NewSource(seed)))
@@ -1592,7 +1661,7 @@ func c04RunPlan(p c04Plan, seed int64) (res c04Result) {
 }
 
 func c04RunPlanOnce(p c04Plan, r *rand.Rand) (res c04Result, unsafe bool) {
-	e, err := c04NewEngCfg(p.Armed, p.NCh, c04EngCfg{Map: p.Map, Keyed: p.Keyed})
+	e, err := c04NewEngCfg(p.Armed, p.NCh, c04EngCfg{Map: p.Map, Keyed: p.Keyed, MapPres: p.MapPres, AcceptProto: p.AcceptProto})
 	if err != nil {
 		return c04Result{Term: "", JS: map[string]any{"error": err.Error()}, Class: "setup-error"}, false
 	}
@@ -1604,6 +1673,8 @@ func c04RunPlanOnce(p c04Plan, r *rand.Rand) (res c04Result, unsafe bool) {
 			fmt.Printf("timing %s: total-before-shutdown %v shutdown %v\n", p.Name, t3.Sub(t0), time.Since(t3))
 		}
 	}()
+	e.deltaPos = p.DeltaPos
+	e.noSnap = p.NoModel
 	if len(p.ConnSubs) > 0 {
 		e.connSubs = map[string]SubscribeOptions{}
 		for _, cs := range p.ConnSubs {
